@@ -441,6 +441,17 @@ pub fn run(args: &[String]) -> i32 {
         );
         merge(&mut rep, "families_5_to_12", accs, &stats, json!({"families": ["chain", "reversed chain", "star-in", "star-out", "diamond ladder", "3-cycle with tail", "two disjoint cycles"], "sizes": format!("5..={max_n}"), "rotations": "every rotation of the name labeling", "carriers": ["direct", "vec"]}));
     }
+    // 5. ambient variations: graphs on 3 nodes with few edges, under program rewrites the order must not depend on
+    {
+        let amb_k = if thorough { 5 } else { 4 };
+        super::common::ambient_family(&mut rep, "ambient_variations", amb_k, |ch| { gen_edges(ch, 3); }, |ch, acc| {
+            let edges = gen_edges(ch, 3);
+            let carrier = *ch.pick("carrier", &CARRIERS);
+            let lang = *ch.pick("lang", &LANGS);
+            let g = Graph { n: 3, edges, names: names(3, 0), kinds: vec!["struct"; 3], carrier, renamed: None };
+            check_graph(&g, lang, &ch.choices(), "ambient", acc);
+        });
+    }
     // (c) eagerly evaluated Python: the module of every acyclic graph with aliases / unions must import
     {
         let mods = std::mem::take(&mut *PY_MODULES.lock().unwrap());
